@@ -101,9 +101,13 @@ HISTORY = {
     "C17-signed-split-max-not-examined": "missed by C17 at first (C08 caught it): the refutable patterns of the menu were literals, Booleans and small ranges; ranges that miss exactly one value at an end of i8 / u8 / i16 / i32 / u64 added",
     "C01-unspecified-number-sign-extends": "missed by every check at first: no unsuffixed number in [2^31, 2^32) was given a wider type through a binding; 28 boundary templates (2^31-1, 2^31, 3000000000, 2^32-1 x let / array element / tuple element / for binding / cast / comparison) added to family I",
     "C06-bristol-export-not-truncated": "missed by C06 at first (C11 caught it: its exports go over an older, longer file): the C06 exports always went to a fresh path; every export of a process but its first now finds an older, longer file at its path, so that the compilation histories compare it with the first export of a fresh process",
-    "C08-match-first-clause-not-coerced": "missed by C08 (its arm bodies are suffixed); C01 and C05 report it through the family I template `let r = match`",
+    "C08-match-first-clause-not-coerced": "missed by C08 at first (C01 and C05 caught it through the family I template `let r = match`): its arm bodies were suffixed; every accepted clause list is now also compiled in a second form - bound by an unannotated `let`, arm values written without a suffix except the last one (a u8 parameter)",
     "C12-external-values-keyed-by-plain-name": "missed by every check at first: the supplied values of the const sections had names no other constant had; sections where two parties supply a value of the same name and where a supplied value has the name of a constant of the program (declared before / after) added",
     "C17-array-index-only-constrained": "missed by every check at first: the wrongly typed indices were a u8 literal; the kind-meets-type sweep gained the positions with a fixed expected type (index read / write / nested / before a field, shift amount) and 13 Boolean- or u16-valued holes rooted in a comparison, &&, ||, ^, a block, an if, a match, a cast, a sum; IndexNotUsize also puts a comparison at every index",
+    "C03-not-literal-keeps-32-bits": "missed by C03 (its programs have no unsuffixed literals); C01 and C05 report it through the family I literal-shape x context sweep (`!lit` in a u64 / i64 context)",
+    "C14-join-loop-muxes-assigned-vars-only": "missed by every check at first: the effect carriers of family X never sat in the body of a loop; contexts added where the hole is the initializer of a let, part of an assigned value or an operand of a condition inside a for-join body (two joined pairs) and a for body",
+    "C12-shadowed-usize-const-as-factor": "missed by every check at first: the only binding that shadowed a constant was a parameter used with & and ^; use template ShadowedValue added (a parameter, a let and a loop variable named like the constant, each used as a factor) for usize, u8 and bool constants",
+    "C17-literal-sized-array-element-not-visited": "missed by every check at first: the texts with a bad size name had it at the top of a type; size-name sweep added (unknown name, a parameter, a u8 / bool constant x 9 type shapes - directly, under literal- and const-sized arrays, in a tuple - x 6 places a type is written, each with an accepted twin)",
     "C17-match-arms-share-scope": "missed at first: UseAfterScope only covered loop variables and block locals; replaced by a reference model of lexical scoping (every use x every name bound elsewhere but not in scope)",
 }
 rows = []
